@@ -63,10 +63,12 @@ def gen_ops(tier, rng):
         cells = rng.sample(cells, 500)
     for c in cells:
         for _ in range(2):
-            cl = rng.choice([0, 1]); sg = rng.choice(['-', '1', '2', '3', '7', '16', '0', '-1'])
-            if ref_res(c) <= 1 and sg == '-' and rng.random() < 0.7:
+            cl = rng.choice(['0', '1', '-']); sg = rng.choice(['-', 'none', 'auto', '1', '2', '3', '7', '16', '0', '-1'])
+            if ref_res(c) <= 1 and sg in ('-', 'none', 'auto') and rng.random() < 0.7:
                 sg = '2'
             ops.append(f'c2b {c} {cl} {sg}')
+        if ref_res(c) > 1 and rng.random() < 0.2:
+            ops.append(f'c2b {c} x x')
     return ops
 
 def seg_intersect(p1, p2, p3, p4):
